@@ -127,7 +127,13 @@ func (f *fz) feed(si int, gen string, raw []byte, in rfix.Ingress) {
 		case res.OutScope == router.Internal:
 			how = "delivered"
 		}
-		f.violation("C08:malformed-output:"+how+":"+jv.cat,
+		// canonical key: by the root cause visible in the input where there is one
+		// (the symptom in the output varies with the garbage), else by the symptom
+		key := "C08:malformed-output:" + how + ":" + jv.cat
+		if ic := inputInconsistency(raw); ic != "" {
+			key = "C08:malformed-output:input-" + ic
+		}
+		f.violation(key,
 			fmt.Sprintf("a packet that left the router (%s, egress %d) is not a consistent SCION packet: %s", out, res.Egress, jv.detail),
 			mkWitness(s, v, gen, raw, in, &res))
 		return
@@ -136,6 +142,52 @@ func (f *fz) feed(si int, gen string, raw []byte, in rfix.Ingress) {
 	if f.id == 0 && f.r.WantSample() && f.rng.IntN(400) == 0 {
 		f.r.Sample(mkWitness(s, v, gen, raw, in, &res))
 	}
+}
+
+// inputInconsistency names a length inconsistency of the input that a router
+// must not let through: a header longer than its address and path content
+// ("hdrlen-slack"), or a PayloadLen that is not the rest of the datagram
+// ("payloadlen-mismatch"), each with the input's path type.
+func inputInconsistency(raw []byte) string {
+	if len(raw) < 12 {
+		return ""
+	}
+	hb := int(raw[5]) * 4
+	po := 12 + 16 + 4*(int(raw[9]>>4&3)+1) + 4*(int(raw[9]&3)+1)
+	pl := -1
+	meta := func(o int) int {
+		if o+4 > len(raw) {
+			return -1
+		}
+		m := binary.BigEndian.Uint32(raw[o:])
+		n, hops := 0, 0
+		for _, sh := range []uint{12, 6, 0} {
+			if l := int(m>>sh) & 0x3f; l > 0 {
+				n++
+				hops += l
+			}
+		}
+		return 4 + 8*n + 12*hops
+	}
+	switch raw[8] {
+	case 0:
+		pl = 0
+	case 1:
+		pl = meta(po)
+	case 2:
+		pl = 32
+	case 3:
+		if l := meta(po + 16); l >= 0 {
+			pl = 16 + l
+		}
+	}
+	if pl >= 0 && hb > po+pl {
+		return fmt.Sprintf("hdrlen-slack:pathtype-%d", raw[8])
+	}
+	if hb <= len(raw) && int(binary.BigEndian.Uint16(raw[6:])) != len(raw)-hb {
+		return fmt.Sprintf("payloadlen-mismatch:pathtype-%d", raw[8])
+	}
+	return ""
 }
 
 // internalProcess runs the internal link's own packet processing (STUN) and
@@ -467,7 +519,7 @@ func checkC08(r *mon.Run) {
 	r.Extra("max_input_len", maxInput)
 	r.Require(int64(r.Pick(180_000, 10_000_000)), 300,
 		"emitted_consistent", "stun_response", "stun_rejected", "receive_drop_not_scion",
-		"outcome:forward", "outcome:deliver", "outcome:discard", "outcome:alert-out", "outcome:scmp-4-51", "outcome:done")
+		"outcome:forward", "outcome:deliver", "outcome:discard", "outcome:traceroute-reply", "outcome:alert-declined-sent-back", "outcome:scmp-4-51", "outcome:done")
 	r.RequireClasses(
 		"mut:none/external/noauth/forward", "mut:none/internal/auth/forward", "mut:none/sibling/noauth/forward",
 		"mut:none/external/auth/deliver", "stun/internal/noauth/stun-response",
